@@ -465,14 +465,14 @@ class PFlipFlop(PStochasticPattern):
 
     def __next__(self):
         self.value = Pattern.value(self.value)
-        self.p_on = Pattern.value(self.p_on)
-        self.p_off = Pattern.value(self.p_off)
+        p_on = Pattern.value(self.p_on)
+        p_off = Pattern.value(self.p_off)
 
         if self.value == 0:
-            if self.rng.uniform(0, 1) < self.p_on:
+            if self.rng.uniform(0, 1) < p_on:
                 self.value = 1
         else:
-            if self.rng.uniform(0, 1) < self.p_off:
+            if self.rng.uniform(0, 1) < p_off:
                 self.value = 0
 
         return self.value
